@@ -141,7 +141,7 @@ def _worker(args):
     t0 = time.time()
     r = {'shard': shard, 'states': 0, 'transitions': 0, 'evals': 0, 'nontrivial': 0, 'levels': {},
          'fails': [], 'nfails': 0, 'samples': [], 'outcomes': set(), 'distinct': 0, 'capped': None,
-         'harness_error': None, 'known': {}, 'known_examples': {}, 'nunknown': 0}
+         'harness_error': None, 'known': {}, 'known_examples': {}, 'nunknown': 0, 'pid': os.getpid()}
     seen = set()
     from . import findings
     open_entries = [e for e in findings.load_entries(prop) if e['status'] == 'open']
@@ -186,7 +186,7 @@ def _worker(args):
                     key = lib.jkey(sc) if sc is not None else ''
                     groups.setdefault(key, (sc if sc is not None else case, []))[1].append(f)
                 for key, (c2, fl) in groups.items():
-                    fc = {'case': c2, 'level': level, 'failures': fl}
+                    fc = {'case': c2, 'level': level, 'failures': fl, 'top_case': case, 'shard': shard}
                     ids = findings.attribute(mod, open_entries, fc)
                     if ids:
                         for i in ids:
@@ -228,8 +228,13 @@ def explore(prop, tier, seed, jobs):
     else:
         pool = mp.get_context('fork').Pool(jobs, initializer=_worker_init)
         results = pool.imap_unordered(_worker, tasks, chunksize=1)
+    history = {}     # worker pid -> shards it has finished, in order (each worker runs its shards sequentially)
     try:
         for r in results:
+            done_before = history.setdefault(r['pid'], [])
+            for fc in r['fails']:
+                fc['history_shards'] = list(done_before)
+            done_before.append(r['shard'])
             for k in ('states', 'transitions', 'evals', 'nontrivial', 'nfails', 'distinct', 'nunknown'):
                 agg[k] += r[k]
             for i, n in r['known'].items():
@@ -257,6 +262,22 @@ def explore(prop, tier, seed, jobs):
             pool.close()
             pool.join()
     return mod, agg
+
+
+def replay_history(mod, tier, art):
+    """Re-run, in this (fresh) process, every state the worker had explored before the failing one - the shards it had
+    finished, then the failing state's own shard up to that state - and return the failing state's context.  A failure
+    that only shows after earlier states is a dependence on process-wide state left behind by those states."""
+    _worker_init()
+    target = lib.h64(art['top_case'])
+    for sh in art['history_shards']:
+        for item in mod.gen(sh, tier):
+            run_case(mod, item[0])
+    for item in mod.gen(art['shard'], tier):
+        if lib.h64(item[0]) == target:
+            return run_case(mod, item[0])
+        run_case(mod, item[0])
+    return run_case(mod, art['top_case'])
 
 
 def replay_in_fresh_process(path):
